@@ -810,7 +810,9 @@ class ConfigurableReference:
       return '%' + '/'.join(self._scopes)
     maybe_parens = '()' if self._evaluate else ''
     import_manager = _parse_context().import_manager
-    if import_manager is not None and import_manager.dynamic_registration:
+    if import_manager is not None:
+      # A config string is being generated: spell the reference so that it
+      # resolves, whatever has been registered since it was written.
       selector = import_manager.minimal_selector(self._configurable)
     else:
       selector = self.selector
